@@ -3448,6 +3448,10 @@ evhttp_response_code_(struct evhttp_request *req, int code, const char *reason)
 	req->response_code = code;
 	if (req->response_code_line != NULL)
 		mm_free(req->response_code_line);
+	/* the reason phrase is written verbatim into the status line: one
+	 * with CR or LF would add header fields or a whole response */
+	if (reason != NULL && strpbrk(reason, "\r\n") != NULL)
+		reason = NULL;
 	if (reason == NULL)
 		reason = evhttp_response_phrase_internal(code);
 	req->response_code_line = mm_strdup(reason);
